@@ -1000,9 +1000,332 @@ theorem evalSpecMacro_irr {ids : List Str} {args : List Ast} (hargs : ∀ a ∈ 
     simp only [a0, a1, a2, b0, b1, b2, c0, c1, d0, d1]
   · rw [evalSpecMacro.eq_def, evalSpecMacro.eq_def]
 
+/-! #### the macro theorem -/
+
+theorem list_shape {α : Type} (l : List α) :
+    l = [] ∨ (∃ a, l = [a]) ∨ (∃ a b, l = [a, b]) ∨ (∃ a b c, l = [a, b, c]) ∨ (∃ a b c d, l = [a, b, c, d]) ∨
+      (∃ a b c d e t, l = a :: b :: c :: d :: e :: t) := by
+  rcases l with _ | ⟨a, _ | ⟨b, _ | ⟨c, _ | ⟨d, _ | ⟨e, t⟩⟩⟩⟩⟩
+  · exact Or.inl rfl
+  · exact Or.inr (Or.inl ⟨a, rfl⟩)
+  · exact Or.inr (Or.inr (Or.inl ⟨a, b, rfl⟩))
+  · exact Or.inr (Or.inr (Or.inr (Or.inl ⟨a, b, c, rfl⟩)))
+  · exact Or.inr (Or.inr (Or.inr (Or.inr (Or.inl ⟨a, b, c, d, rfl⟩))))
+  · exact Or.inr (Or.inr (Or.inr (Or.inr (Or.inr ⟨a, b, c, d, e, t, rfl⟩))))
+
+theorem long_shape {α : Type} (l : List α) (h : 5 ≤ l.length) : ∃ a b c d e t, l = a :: b :: c :: d :: e :: t := by
+  rcases list_shape l with rfl | ⟨a, rfl⟩ | ⟨a, b, rfl⟩ | ⟨a, b, c, rfl⟩ | ⟨a, b, c, d, rfl⟩ | h' <;>
+    first | exact h' | (simp at h)
+
+/-- More than four arguments: every macro but `coalesce` answers with an Argument failure. -/
+theorem callMacro_long {rec top : Rec} {env : Env} {name : Str} {this : Val} {blocks : List (List Instr)}
+    (h : 5 ≤ blocks.length) (hn : name ≠ "coalesce".toList) (log : Log) :
+    callMacro rec top env name this blocks log = (.err .argument, log) := by
+  obtain ⟨a, b, c, d, e, t, rfl⟩ := long_shape blocks h
+  unfold callMacro
+  simp only [hn, if_false]
+  repeat (first | rfl | split)
+
+theorem evalSpecMacro_long {env : Env} {name : Str} {this : Val} {args : List Ast} (h : 5 ≤ args.length) :
+    evalSpecMacro B name this args env = .err .argument := by
+  obtain ⟨a, b, c, d, e, t, rfl⟩ := long_shape args h
+  rw [evalSpecMacro.eq_def]
+  dsimp only
+  repeat (first | rfl | split)
+
+theorem identOf_some {xb : Ast} {x : Str} (h : identOf xb = some x) : ∃ sp sp', xb = .member sp (.ident sp' x) [] := by
+  unfold identOf at h
+  split at h
+  · cases h; exact ⟨_, _, rfl⟩
+  · cases h
+
+theorem evalIdent_of_identOf {xb : Ast} {x : Str} (h : identOf xb = some x) :
+    evalIdent (runFresh B) (compileX B xb).cp.toCode = .ok x := by
+  obtain ⟨sp, sp', rfl⟩ := identOf_some h
+  have hc : (compileX B (.member sp (.ident sp' x) [])).cp.toCode = [.push (.ident x)] := by
+    simp [compileX, compileOps, compilePrim, CP.toCode]
+  rw [hc]
+  simp [evalIdent, runFresh, blockFuel, loop, step, pushV, finish, Env.getParam]
+
+theorem loopVarOK_some {xb : Ast} (h : loopVarOK B xb = true) :
+    ∃ x, identOf xb = some x ∧ callableName B x = false := by
+  unfold loopVarOK at h
+  split at h
+  · rename_i x hx; exact ⟨x, hx, by simpa using h⟩
+  · cases h
+
+/-- `macroVal` for a name other than `coalesce`. -/
+theorem macroVal_ne {env : Env} {name : Str} {this : Val} {args : List Ast} (hn : name ≠ "coalesce".toList) :
+    macroVal B env name this args = evalSpecMacro B name this args env := by
+  unfold macroVal; rw [if_neg hn]
+
+/-- What the macro theorem knows at a call site (level `b`, environment `env`). -/
+structure MacroCtx (B : Builtins) (args : List Ast) (b : Nat) (env : Env) (this : Val) : Prop where
+  henv : StdEnv B env
+  hthis : Data this
+  hblock : ∀ a ∈ args, ∀ env', StdEnv B env' → ∀ log,
+      runAt B b env' (compileX B a).cp.toCode true log = outOf (evalSpec B a env') log
+  hdata : ∀ a ∈ args, ∀ env', StdEnv B env' → Data (evalSpec B a env')
+
+/-- The statement of the macro theorem for a name other than `coalesce`. -/
+def MacroGoal (B : Builtins) (name : Str) (args : List Ast) (b : Nat) (env : Env) (this : Val) : Prop :=
+  (∀ log, callMacro (runAt B b) (runFresh B) env name this (blocksOf B args) log =
+    (evalSpecMacro B name this args env, log)) ∧ Data (evalSpecMacro B name this args env)
+
+theorem macro_names {env : Env} {name : Str} (hm : env.isMacro name = true) :
+    name = "has".toList ∨ name = "all".toList ∨ name = "exists".toList ∨ name = "exists_one".toList ∨
+    name = "filter".toList ∨ name = "map".toList ∨ name = "reduce".toList ∨ name = "coalesce".toList := by
+  have hnames := isMacro_default hm
+  simp only [defaultMacros, List.any_cons, List.any_nil, Bool.or_false, Bool.or_eq_true, decide_eq_true_eq] at hnames
+  rcases hnames with h | h | h | h | h | h | h | h <;> simp [← h]
+
+/-- Wrong number of arguments. -/
+theorem macro_arity {name : Str} {args : List Ast} {b : Nat} {env : Env} {this : Val}
+    (hn : name = "has".toList ∨ name = "all".toList ∨ name = "exists".toList ∨ name = "exists_one".toList ∨
+      name = "filter".toList ∨ name = "map".toList ∨ name = "reduce".toList)
+    (hbad : (args.length = 0) ∨ (args.length = 1 ∧ name ≠ "has".toList) ∨
+      (args.length = 2 ∧ (name = "has".toList ∨ name = "reduce".toList)) ∨
+      (args.length = 3 ∧ name ≠ "map".toList) ∨ (args.length = 4 ∧ name ≠ "reduce".toList)) :
+    MacroGoal B name args b env this := by
+  unfold MacroGoal
+  rcases list_shape args with rfl | ⟨a, rfl⟩ | ⟨a1, a2, rfl⟩ | ⟨a1, a2, a3, rfl⟩ | ⟨a1, a2, a3, a4, rfl⟩ | ⟨_, _, _, _, _, _, rfl⟩
+  all_goals simp only [List.length_cons, List.length_nil] at hbad
+  all_goals
+    rcases hn with h | h | h | h | h | h | h <;> subst h <;>
+      first
+      | (exfalso; revert hbad; decide)
+      | (exfalso; omega)
+      | (rw [evalSpecMacro.eq_def]
+         refine ⟨fun log => ?_, ?_⟩ <;>
+         simp (config := {decide := true}) only [blocksOf, List.map_cons, List.map_nil, List.reverse_cons,
+           List.reverse_nil, List.nil_append, List.cons_append, callMacro, if_true, if_false] <;> rfl)
+
+theorem macro_has {a : Ast} {b : Nat} {env : Env} {this : Val} (c : MacroCtx B [a] b env this) :
+    MacroGoal B "has".toList [a] b env this := by
+  unfold MacroGoal
+  have ha := c.hblock a (by simp) env c.henv
+  rw [evalSpecMacro.eq_def]
+  simp (config := {decide := true}) only [blocksOf, List.map_cons, List.map_nil, List.reverse_cons,
+    List.reverse_nil, List.nil_append, callMacro, if_true, ha]
+  refine ⟨fun log => ?_, data_hasVal _⟩
+  rcases outOf_cases (evalSpec B a env) log with ⟨k, hk, ho⟩ | ⟨hne, ho⟩
+  · rw [ho, hk]; cases k <;> rfl
+  · rw [ho]
+    cases hv : evalSpec B a env <;> first | rfl | exact absurd hv (hne _)
+
+/-- The body of a two-argument comprehension in the loop variable's environments. -/
+theorem body_runs {a1 a2 : Ast} {b : Nat} {env : Env} {this : Val} (c : MacroCtx B [a1, a2] b env this)
+    {x : Str} (hcx : callableName B x = false) (l : List Val) (hl : ∀ v ∈ l, Data v) :
+    (∀ v ∈ l, ∀ log, runAt B b (env.bind x v) (compileX B a1).cp.toCode true log =
+      outOf (evalSpec B a1 (env.bind x v)) log) ∧ (∀ v ∈ l, Data (evalSpec B a1 (env.bind x v))) :=
+  ⟨fun v hv log => c.hblock a1 (by simp) _ (c.henv.bind hcx (hl v hv)) log,
+   fun v hv => c.hdata a1 (by simp) _ (c.henv.bind hcx (hl v hv))⟩
+
+theorem macro_all {a1 a2 : Ast} {b : Nat} {env : Env} {this : Val} (c : MacroCtx B [a1, a2] b env this)
+    (hlv : loopVarOK B a2 = true) : MacroGoal B "all".toList [a1, a2] b env this := by
+  unfold MacroGoal
+  obtain ⟨x, hx, hcx⟩ := loopVarOK_some hlv
+  have hid := evalIdent_of_identOf (B := B) hx
+  rw [evalSpecMacro.eq_def]
+  simp (config := {decide := true}) only [blocksOf, List.map_cons, List.map_nil, List.reverse_cons,
+    List.reverse_nil, List.nil_append, List.cons_append, callMacro, if_true, if_false, hid, hx]
+  cases hr : rangeOf false this with
+  | none => exact ⟨fun _ => rfl, rfl⟩
+  | some l =>
+    have hb := body_runs c hcx l (data_rangeOf c.hthis hr)
+    exact ⟨fun log => loop_all x _ _ l log hb.1, data_allVal _ _⟩
+
+theorem macro_exists {a1 a2 : Ast} {b : Nat} {env : Env} {this : Val} (c : MacroCtx B [a1, a2] b env this)
+    (hlv : loopVarOK B a2 = true) : MacroGoal B "exists".toList [a1, a2] b env this := by
+  unfold MacroGoal
+  obtain ⟨x, hx, hcx⟩ := loopVarOK_some hlv
+  have hid := evalIdent_of_identOf (B := B) hx
+  rw [evalSpecMacro.eq_def]
+  simp (config := {decide := true}) only [blocksOf, List.map_cons, List.map_nil, List.reverse_cons,
+    List.reverse_nil, List.nil_append, List.cons_append, callMacro, if_true, if_false, hid, hx]
+  cases hr : rangeOf false this with
+  | none => exact ⟨fun _ => rfl, rfl⟩
+  | some l =>
+    have hb := body_runs c hcx l (data_rangeOf c.hthis hr)
+    exact ⟨fun log => loop_exists x _ _ l log hb.1, data_existsVal _ _⟩
+
+theorem macro_one {a1 a2 : Ast} {b : Nat} {env : Env} {this : Val} (c : MacroCtx B [a1, a2] b env this)
+    (hlv : loopVarOK B a2 = true) : MacroGoal B "exists_one".toList [a1, a2] b env this := by
+  unfold MacroGoal
+  obtain ⟨x, hx, hcx⟩ := loopVarOK_some hlv
+  have hid := evalIdent_of_identOf (B := B) hx
+  rw [evalSpecMacro.eq_def]
+  simp (config := {decide := true}) only [blocksOf, List.map_cons, List.map_nil, List.reverse_cons,
+    List.reverse_nil, List.nil_append, List.cons_append, callMacro, if_true, if_false, hid, hx]
+  cases hr : rangeOf false this with
+  | none => exact ⟨fun _ => rfl, rfl⟩
+  | some l =>
+    have hb := body_runs c hcx l (data_rangeOf c.hthis hr)
+    exact ⟨fun log => loop_one x _ _ l 0 log hb.1, data_oneVal _ _ _⟩
+
+theorem macro_filter {a1 a2 : Ast} {b : Nat} {env : Env} {this : Val} (c : MacroCtx B [a1, a2] b env this)
+    (hlv : loopVarOK B a2 = true) : MacroGoal B "filter".toList [a1, a2] b env this := by
+  unfold MacroGoal
+  obtain ⟨x, hx, hcx⟩ := loopVarOK_some hlv
+  have hid := evalIdent_of_identOf (B := B) hx
+  rw [evalSpecMacro.eq_def]
+  simp (config := {decide := true}) only [blocksOf, List.map_cons, List.map_nil, List.reverse_cons,
+    List.reverse_nil, List.nil_append, List.cons_append, callMacro, if_true, if_false, hid, hx]
+  cases hr : rangeOf true this with
+  | none => exact ⟨fun _ => rfl, rfl⟩
+  | some l =>
+    have hl := data_rangeOf c.hthis hr
+    have hb := body_runs c hcx l hl
+    exact ⟨fun log => loop_filter' x _ _ l log hb.1, data_filterVal _ _ hl⟩
+
+theorem macro_map2 {a1 a2 : Ast} {b : Nat} {env : Env} {this : Val} (c : MacroCtx B [a1, a2] b env this)
+    (hlv : loopVarOK B a2 = true) : MacroGoal B "map".toList [a1, a2] b env this := by
+  unfold MacroGoal
+  obtain ⟨x, hx, hcx⟩ := loopVarOK_some hlv
+  have hid := evalIdent_of_identOf (B := B) hx
+  rw [evalSpecMacro.eq_def]
+  simp (config := {decide := true}) only [blocksOf, List.map_cons, List.map_nil, List.reverse_cons,
+    List.reverse_nil, List.nil_append, List.cons_append, callMacro, if_true, if_false, hid, hx]
+  cases hr : rangeOf true this with
+  | none => exact ⟨fun _ => rfl, rfl⟩
+  | some l =>
+    have hb := body_runs c hcx l (data_rangeOf c.hthis hr)
+    exact ⟨fun log => loop_map' x _ _ l log hb.1, data_mapVal _ _ hb.2⟩
+
+theorem macro_map3 {a1 a2 a3 : Ast} {b : Nat} {env : Env} {this : Val} (c : MacroCtx B [a1, a2, a3] b env this)
+    (hlv : loopVarOK B a3 = true) : MacroGoal B "map".toList [a1, a2, a3] b env this := by
+  unfold MacroGoal
+  obtain ⟨x, hx, hcx⟩ := loopVarOK_some hlv
+  have hid := evalIdent_of_identOf (B := B) hx
+  rw [evalSpecMacro.eq_def]
+  simp (config := {decide := true}) only [blocksOf, List.map_cons, List.map_nil, List.reverse_cons,
+    List.reverse_nil, List.nil_append, List.cons_append, callMacro, if_true, if_false, hid, hx]
+  cases hr : rangeOf true this with
+  | none => exact ⟨fun _ => rfl, rfl⟩
+  | some l =>
+    have hl := data_rangeOf c.hthis hr
+    exact ⟨fun log => loop_map3' x _ _ _ _ l log
+        (fun v hv log => c.hblock a2 (by simp) _ (c.henv.bind hcx (hl v hv)) log)
+        (fun v hv log => c.hblock a1 (by simp) _ (c.henv.bind hcx (hl v hv)) log),
+      data_map3Val _ _ _ (fun v hv => c.hdata a1 (by simp) _ (c.henv.bind hcx (hl v hv)))⟩
+
+theorem macro_reduce {a1 a2 a3 a4 : Ast} {b : Nat} {env : Env} {this : Val}
+    (c : MacroCtx B [a1, a2, a3, a4] b env this) (hlv4 : loopVarOK B a4 = true) (hlv3 : loopVarOK B a3 = true) :
+    MacroGoal B "reduce".toList [a1, a2, a3, a4] b env this := by
+  unfold MacroGoal
+  obtain ⟨cur, hcur, hccur⟩ := loopVarOK_some hlv4
+  obtain ⟨nxt, hnxt, hcnxt⟩ := loopVarOK_some hlv3
+  have hidc := evalIdent_of_identOf (B := B) hcur
+  have hidn := evalIdent_of_identOf (B := B) hnxt
+  have hseed := c.hblock a1 (by simp) env c.henv
+  have hsd := c.hdata a1 (by simp) env c.henv
+  have hstd : ∀ v acc, Data v → Data acc → StdEnv B ((env.bind nxt v).bind cur acc) :=
+    fun v acc hv hacc => (c.henv.bind hcnxt hv).bind hccur hacc
+  rw [evalSpecMacro.eq_def]
+  simp (config := {decide := true}) only [blocksOf, List.map_cons, List.map_nil, List.reverse_cons,
+    List.reverse_nil, List.nil_append, List.cons_append, callMacro, if_true, if_false, hidc, hidn, hcur, hnxt,
+    hseed]
+  generalize evalSpec B a1 env = s at hsd ⊢
+  have hgd : ∀ l : List Val, (∀ v ∈ l, Data v) → ∀ v ∈ l, ∀ acc, Data acc →
+      Data (evalSpec B a2 ((env.bind nxt v).bind cur acc)) :=
+    fun l hl v hv acc hacc => c.hdata a2 (by simp) _ (hstd v acc (hl v hv) hacc)
+  have hgr : ∀ l : List Val, (∀ v ∈ l, Data v) → ∀ v ∈ l, ∀ acc, Data acc → ∀ log,
+      runAt B b ((env.bind nxt v).bind cur acc) (compileX B a2).cp.toCode true log =
+        outOf (evalSpec B a2 ((env.bind nxt v).bind cur acc)) log :=
+    fun l hl v hv acc hacc log => c.hblock a2 (by simp) _ (hstd v acc (hl v hv) hacc) log
+  refine ⟨fun log => ?_, ?_⟩
+  · rcases outOf_cases s log with ⟨k, hk, ho⟩ | ⟨hne, ho⟩
+    · rw [ho, hk]; rfl
+    · rw [ho, andThen_nonerr hne]
+      cases hth : this with
+      | list l =>
+        have hl : ∀ v ∈ l, Data v := by have := c.hthis; rw [hth] at this; exact data_list.mp this
+        exact loop_reduce cur nxt _ _ Data l s log hsd (hgd l hl) (hgr l hl)
+      | _ => rfl
+  · apply data_andThen
+    cases hth : this with
+    | list l =>
+      have hl : ∀ v ∈ l, Data v := by have := c.hthis; rw [hth] at this; exact data_list.mp this
+      exact data_reduceVal _ l (hgd l hl) s hsd
+    | _ => rfl
+
 theorem macro_ok (hB : BuiltinsOK B) (name : Str) (args : List Ast) (hargs : ∀ a ∈ args, GoodRun B a)
     (hshape : macroShape B name args = true) : MacroOK B name args := by
-  sorry
+  intro b env this henv hthis hm hd hb
+  have hblock : ∀ a ∈ args, ∀ env', StdEnv B env' → ∀ log,
+      runAt B b env' (compileX B a).cp.toCode true log = outOf (evalSpec B a env') log :=
+    fun a ha env' henv' log => block_runs (hargs a ha) henv' (by have := depth_arg_lt ha; omega) hb log
+  have hdata : ∀ a ∈ args, ∀ env', StdEnv B env' → Data (evalSpec B a env') :=
+    fun a ha env' henv' => (hargs a ha b env' henv' (by have := depth_arg_lt ha; omega) hb).2
+  by_cases hco : name = "coalesce".toList
+  · -- coalesce: the loop over all argument blocks
+    subst hco
+    have hcm : ∀ log, callMacro (runAt B b) (runFresh B) env "coalesce".toList this (blocksOf B args) log =
+        coalesceLoop (runAt B b) env (blocksOf B args) log := by
+      intro log; unfold callMacro; rw [if_neg (by decide), if_pos rfl]
+    have hl := fun log => loop_coalesce (rec := runAt B b) (env := env)
+      ((args.map (fun a => ((compileX B a).cp.toCode, evalSpec B a env))).reverse) log
+      (by
+        intro p hp log
+        rw [List.mem_reverse] at hp
+        obtain ⟨a, ha, rfl⟩ := List.mem_map.mp hp
+        exact hblock a ha env henv log)
+    have h1 : ((args.map (fun a => ((compileX B a).cp.toCode, evalSpec B a env))).reverse).map (·.1) = blocksOf B args := by
+      simp [blocksOf, List.map_reverse, List.map_map, Function.comp_def]
+    have h2 : ((args.map (fun a => ((compileX B a).cp.toCode, evalSpec B a env))).reverse).map (·.2) =
+        (evalSpecList B args env).reverse := by
+      simp [evalSpecList_eq, List.map_reverse, List.map_map, Function.comp_def]
+    simp only [h1, h2] at hl
+    have hmv : macroVal B env "coalesce".toList this args = coalesceVal (evalSpecList B args env).reverse := by
+      unfold macroVal; rw [if_pos rfl]
+    rw [hmv]
+    refine ⟨fun log => by rw [hcm, hl log], data_coalesceVal _ ?_⟩
+    intro v hv
+    rw [List.mem_reverse, evalSpecList_eq] at hv
+    obtain ⟨a, ha, rfl⟩ := List.mem_map.mp hv
+    exact hdata a ha env henv
+  · rw [macroVal_ne hco]
+    show MacroGoal B name args b env this
+    by_cases hlong : 5 ≤ args.length
+    · unfold MacroGoal
+      rw [evalSpecMacro_long hlong]
+      exact ⟨fun log => callMacro_long (by simpa [blocksOf] using hlong) hco log, rfl⟩
+    · have hn7 : name = "has".toList ∨ name = "all".toList ∨ name = "exists".toList ∨ name = "exists_one".toList ∨
+          name = "filter".toList ∨ name = "map".toList ∨ name = "reduce".toList := by
+        rcases macro_names hm with h | h | h | h | h | h | h | h
+        · exact Or.inl h
+        · exact Or.inr (Or.inl h)
+        · exact Or.inr (Or.inr (Or.inl h))
+        · exact Or.inr (Or.inr (Or.inr (Or.inl h)))
+        · exact Or.inr (Or.inr (Or.inr (Or.inr (Or.inl h))))
+        · exact Or.inr (Or.inr (Or.inr (Or.inr (Or.inr (Or.inl h)))))
+        · exact Or.inr (Or.inr (Or.inr (Or.inr (Or.inr (Or.inr h)))))
+        · exact absurd h hco
+      have ctx : MacroCtx B args b env this := ⟨henv, hthis, hblock, hdata⟩
+      rcases list_shape args with rfl | ⟨a, rfl⟩ | ⟨a1, a2, rfl⟩ | ⟨a1, a2, a3, rfl⟩ | ⟨a1, a2, a3, a4, rfl⟩ | ⟨_, _, _, _, _, _, rfl⟩
+      · exact macro_arity hn7 (Or.inl rfl)
+      · by_cases h : name = "has".toList
+        · subst h; exact macro_has ctx
+        · exact macro_arity hn7 (Or.inr (Or.inl ⟨rfl, h⟩))
+      · rcases hn7 with h | h | h | h | h | h | h
+        · exact macro_arity (Or.inl h) (Or.inr (Or.inr (Or.inl ⟨rfl, Or.inl h⟩)))
+        · subst h; exact macro_all ctx (by simpa (config := {decide := true}) [macroShape] using hshape)
+        · subst h; exact macro_exists ctx (by simpa (config := {decide := true}) [macroShape] using hshape)
+        · subst h; exact macro_one ctx (by simpa (config := {decide := true}) [macroShape] using hshape)
+        · subst h; exact macro_filter ctx (by simpa (config := {decide := true}) [macroShape] using hshape)
+        · subst h; exact macro_map2 ctx (by simpa (config := {decide := true}) [macroShape] using hshape)
+        · exact macro_arity (Or.inr (Or.inr (Or.inr (Or.inr (Or.inr (Or.inr h))))))
+            (Or.inr (Or.inr (Or.inl ⟨rfl, Or.inr h⟩)))
+      · by_cases h : name = "map".toList
+        · subst h; exact macro_map3 ctx (by simpa (config := {decide := true}) [macroShape] using hshape)
+        · exact macro_arity hn7 (Or.inr (Or.inr (Or.inr (Or.inl ⟨rfl, h⟩))))
+      · by_cases h : name = "reduce".toList
+        · subst h
+          have hlv : loopVarOK B a4 = true ∧ loopVarOK B a3 = true := by
+            simpa (config := {decide := true}) [macroShape] using hshape
+          exact macro_reduce ctx hlv.1 hlv.2
+        · exact macro_arity hn7 (Or.inr (Or.inr (Or.inr (Or.inr ⟨rfl, h⟩))))
+      · simp at hlong
 
 theorem callVal_irr {ids ids' : List Str} {kindf : Env → CallKind} {name : Str} {args : List Ast}
     (hk : ∀ e1 e2, AgreeOn B ids' e1 e2 → kindf e1 = kindf e2)
